@@ -8,6 +8,7 @@ import (
 	"fmt"
 	"os"
 	"path/filepath"
+	"reflect"
 	"sort"
 	"strconv"
 	"strings"
@@ -123,7 +124,14 @@ func main() {
 		w.Server()
 	}
 	r := newReport(spec.ID)
+	ran := map[uintptr]bool{}
 	for _, rule := range spec.Rules {
+		// a rule that several cross-listings name runs once
+		if p := reflect.ValueOf(rule).Pointer(); ran[p] {
+			continue
+		} else {
+			ran[p] = true
+		}
 		resetFlatRoots()
 		rule(w, r)
 	}
